@@ -365,6 +365,26 @@ let run_cache (lines : string list) =
       | o -> failwith ("bad cache line " ^ o)) lines;
   print_endline "end"
 
+let run_ntable (lines : string list) =
+  let hdr = toks (List.find (fun l -> let t = toks l in Array.length t > 0 && t.(0) = "ntable") lines) in
+  let bits = int_of_string hdr.(1) and bb = int_of_string hdr.(2) in
+  let t = Stdlib.ref (ntbl_new (n_of_int bits) (n_of_int bb)) in
+  let fuel = nat_of_int ((1 lsl bits) + 2) in
+  (try
+    List.iter (fun line ->
+      let tk = toks line in
+      if is_body ["ntable"] tk then
+        match tk.(0) with
+        | "putn" ->
+          let nd = { var = n_of_int (int_of_string tk.(1)); lo = ref_of_raw (int_of_string tk.(2)); hi = ref_of_raw (int_of_string tk.(3)) } in
+          (match ntbl_put fuel !t nd with
+           | Ok (t', i) -> t := t'; Printf.printf "i %d %d %d %d\n" (int_of_n i) (int_of_n !t.real_size) (int_of_n !t.last_index) (int_of_n !t.min_free)
+           | Full -> print_endline "panic full"; raise Exit
+           | Fuel -> print_endline "panic fuel"; raise Exit)
+        | o -> failwith ("bad ntable line " ^ o)) lines
+  with Exit -> ());
+  print_endline "end"
+
 (* u64 status words are printed in hex; N -> hex string *)
 let n_to_hex (x : n) : string =
   match x with
@@ -534,6 +554,7 @@ let () =
     (match (toks l).(0) with
      | "cfg" -> run_bdd lines
      | "table" -> run_table lines
+     | "ntable" -> run_ntable lines
      | "cache" | "kcache" -> run_cache lines
      | "raw" -> run_raw lines
      | "eda" -> run_eda lines
